@@ -956,14 +956,16 @@ fn gen_run_case(rng: &mut Rng, pool: &[Instruction]) -> (Vec<Instruction>, RunCa
         }
     }
     let mut mem: std::collections::BTreeMap<(usize, usize), MaybeRelocatable> = Default::default();
-    let mut at = 0usize;
-    for i in &prog {
-        let (enc, _) = impl_encode(i);
-        let ws = enc.unwrap_or_else(|| vec![BigInt::from(0)]);
-        for w in ws {
-            mem.insert((0, at), MaybeRelocatable::Int(bigint_to_felt(&w)));
-            at += 1;
-        }
+    // the bytecode is built by the toolchain's own CairoProgram::assemble (no constant segments)
+    let bytecode = cairo_lang_sierra_to_casm::compiler::CairoProgram {
+        instructions: prog.clone(),
+        debug_info: cairo_lang_sierra_to_casm::compiler::CairoProgramDebugInfo { sierra_statement_info: vec![] },
+        consts_info: Default::default(),
+    }
+    .assemble()
+    .bytecode;
+    for (at, w) in bytecode.iter().enumerate() {
+        mem.insert((0, at), MaybeRelocatable::Int(bigint_to_felt(w)));
     }
     let fp = 6 + rng.below(4) as usize;
     let rel = |s: isize, o: usize| MaybeRelocatable::RelocatableValue(Relocatable::from((s, o)));
